@@ -957,6 +957,14 @@ where
                 continue;
             }
 
+            // A RELOAD since our last checkout can have replaced our pool: this message is judged
+            // (custom commands, plugins, routing) by the settings in force now, not by those of
+            // the previous transaction. A pool that is gone is reported at checkout.
+            if let Some(current) = get_pool(&self.pool_name, &self.username) {
+                pool = current;
+                query_router.update_pool_settings(&pool.settings);
+            }
+
             // Handle all custom protocol commands, if any.
             if self
                 .handle_custom_protocol(&mut query_router, &message, &pool)
